@@ -20,7 +20,7 @@ CHECKS = {
     "C03": {
         "script": "c03.py", "category": "model_checking",
         "technique": "stateless model checking of the real broker code under a controlled scheduler (exhaustive DFS over schedules with DPOR + sleep sets, virtual time)",
-        "text": U + " for all populations of <=3 waiting proxies (NAT x load x type) and <=2 concurrent clients (the three names, empty, absent, and case/blank/unknown spellings, for which refusal or service like unknown or like the normalised name is accepted); oracle: pool compatibility, refusal only when the eligible pool is exhausted, least-loaded proxy first, /debug counts equal the reference population and zero afterwards.",
+        "text": U + " for all populations of <=3 waiting proxies (NAT x load x type) and <=2 concurrent clients (the three names, empty, absent, and case/blank/unknown spellings, for which refusal or service like unknown or like the normalised name is accepted), proxies arriving together or 100 ms apart, all load triples of one pool x 2 clients; oracle: pool compatibility, refusal only when the eligible pool is exhausted, least-loaded proxy first, /debug counts equal the reference population and zero afterwards.",
         "design_ref": "§3 C03", "note": SCHED_NOTE,
     },
     "C04": {
@@ -43,7 +43,7 @@ CHECKS["C09"] = {
 CHECKS["C11"] = {
     "script": "c11.py", "category": "exploration", "engine": "enum",
     "technique": "bounded-exhaustive enumeration on the real path/cache-URL/rendezvous code against independent references (AMP cache URL spec steps, base64url reader), recording RoundTripper and on-the-wire observation",
-    "text": "DecodePath over all data strings <=3 over 6 boundary bytes x all paddings <=3 tokens; EncodePath with pinned randomness; malformed paths; CacheURL over a host-label grammar (IDN, hyphens at 3-4, 63/64-byte labels) x schemes x ports x userinfo x paths x queries x cache URLs x content types against a reference of the AMP spec + published vectors (fallback: SHA-256 of the domain as written or of its A-label form); fronting (URL.Host = front, Host header = origin) at the RoundTripper and on the wire; status x body-size matrix around the 100 kB limit for HTTP and AMP.",
+    "text": "DecodePath over all data strings <=3 over 6 boundary bytes x all paddings <=3 tokens; EncodePath with pinned randomness; malformed paths; CacheURL over a host-label grammar (IDN, hyphens at 3-4, 63/64-byte labels) x schemes x ports x userinfo x paths x queries x cache URLs x content types against a reference of the AMP spec + published vectors (fallback: SHA-256 of the domain as written or of its A-label form); fronting (URL.Host = front, Host header = origin) at the RoundTripper and on the wire, for three successive exchanges on one rendezvous object; status x body-size matrix around the 100 kB limit for HTTP and AMP.",
     "design_ref": "§3 C11", "note": ENUM_NOTE + " The endpoint-equivalence clause (AMP endpoint == POST endpoint) is decided by the broker SCHED harness (c02 explores the amp entry point with the same oracle) and, over poll sizes up to the 100 000 byte limit, by a sequential enumeration through both handlers; redirect answers (3xx + Location, then 200) are enumerated for all rendezvous variants; x/net/idna is the trusted punycode primitive; slash normalisation by CacheURL is accepted (see DESIGN.md).",
 }
 CHECKS["C12"] = {
@@ -55,14 +55,14 @@ CHECKS["C12"] = {
 CHECKS["C17"] = {
     "script": "c17.py", "category": "model_checking",
     "technique": "stateless model checking of the real turbotunnel adapters under a controlled scheduler (exhaustive DFS over schedules with DPOR + sleep sets, virtual time) with scripted carriers",
-    "text": U + " of RedialPacketConn with 1-3 scripted carriers x failure scripts {none, read, write, both, late write} x dial end {error, block} x close instants (no error before Close/dial failure, at most one carrier active, every carrier closed, no goroutine of the package alive after Close, packets unmodified and in order despite buffer scribbling); QueuePacketConn: all operation sequences <=5(6) against a FIFO reference, overflow run, concurrent feeders/reader/writer/closer; ClientMap with its real sweeper on virtual time (first seen at 5 instants x refreshed after {never, 2 ns, 0.5 s, 0.999 s, T/4, T/2, T/2+1, T-1}: retention until T-1ns after the last sighting, discarded and closed by 1.5T); clientMapInner with explicit clock (steps T/8, T/2, T-1ns, T): breadth-first to a fixpoint with heap/index invariants and exact last-seen times.",
+    "text": U + " of RedialPacketConn with 1-3 scripted carriers x failure scripts {none, read, write, both, late write} x dial end {error, block} x close instants (no error before Close/dial failure, at most one carrier active, every carrier closed, no goroutine of the package alive after Close, packets unmodified and in order despite buffer scribbling); QueuePacketConn: all operation sequences <=5(6) against a FIFO reference, overflow run, concurrent feeders/reader/writer/closer, 2-3 concurrent producers meeting a queue with 0-2 free slots (len(ch) is a scheduling point); ClientMap with its real sweeper on virtual time (first seen at 5 instants x refreshed after {never, 2 ns, 0.5 s, 0.999 s, T/4, T/2, T/2+1, T-1}: retention until T-1ns after the last sighting, discarded and closed by 1.5T); clientMapInner with explicit clock (steps T/8, T/2, T-1ns, T): breadth-first to a fixpoint with heap/index invariants and exact last-seen times.",
     "design_ref": "§3 C17", "note": SCHED_NOTE,
 }
 CHECKS["C01"] = {
     "script": "c01.py", "category": "model_checking",
     "technique": "stateless model checking (DPOR + sleep sets, virtual time) of the real client dialContext closure + WebRTCPeer + encapsulationPacketConn + RedialPacketConn against the real server turbotunnelMode + QueuePacketConn, with scripted carrier faults and an ARQ stand-in for KCP",
     "text": U + " of the composition for: no fault; every single fault {carrier cut before / inside / after a write, freeze} x direction x write index (token, ClientID, length prefix+payload writes) x {enough standby carriers, one too few} x replacement delay {0, 10 s}; pairs of faults in the thorough tier. Oracle: every packet handed up on either side is byte-identical to one the peer sent in this session and attributed to its ClientID; the application byte streams are exact prefixes (never missing, duplicated, reordered or foreign data); both directions complete whenever a working carrier exists after the last fault; the redialling conn never surfaces an error; nothing of the transport is left running after shutdown.",
-    "design_ref": "§3 C01", "note": SCHED_NOTE + " Tier 1: KCP+smux are replaced by a stop-and-wait ARQ driver, the proxy by a transparent relay. Tier 2 (real time, loopback): the real client newSession (kcp-go, smux) over real WebRTCPeer objects with an in-memory data channel <-> relay <-> real server listener, ~95 fault scenarios at relay messages incl. bulk transfers with a late replacement and the bridge closing after its last write; pion itself and real proxy processes are not covered. The dialContext closure is the real one (captured from newSession by a build-time hook); WebRTCPeer's transport/pipe fields are retyped to interfaces by a build-time pre-pass.",
+    "design_ref": "§3 C01", "note": SCHED_NOTE + " Tier 1: KCP+smux are replaced by a stop-and-wait ARQ driver, the proxy by a transparent relay. Tier 2 (real time, loopback): the real client newSession (kcp-go, smux) over real WebRTCPeer objects with an in-memory data channel <-> relay <-> real server listener, ~95 fault scenarios at relay messages incl. bulk transfers with a late replacement, the bridge closing after its last write and an outage of 125 s without any proxy after acknowledged traffic; pion itself and real proxy processes are not covered. The dialContext closure is the real one (captured from newSession by a build-time hook); WebRTCPeer's transport/pipe fields are retyped to interfaces by a build-time pre-pass.",
 }
 CHECKS["C05"] = {
     "script": "c05.py", "category": "model_checking",
@@ -80,7 +80,7 @@ CHECKS["C16"] = {
     "script": "c16.py", "category": "model_checking",
     "technique": "stateless model checking (DPOR + sleep sets, virtual time) of the real tokens_t/runSession/datachannelHandler with a scripted broker and two build-time seams for the pion-facing functions, explicit enumeration of session-outcome sequences",
     "text": U + " for capacity in {1,2,3} x all sequences of <=3 (4) session outcomes over 10 exit paths incl. the data channel opening in the instant of the 20 s timeout, sessions overlapping; oracle: slots in use <= capacity, every reported Clients value a multiple of 8 and <= slots in use, after the sequence count()==0 with an empty token channel, nobody blocked in a token operation, the proxy keeps polling.",
-    "design_ref": "§3 C16", "note": SCHED_NOTE + " Seams: makePeerConnectionFromOffer (real unconnected PeerConnection + scripted OnDataChannel contract) and copyLoop; Start()'s polling loop is copied verbatim. Harness c16-load: capacity 16 with clients leaving while the proxy polls. Tier 2 (real time): the real SnowflakeProxy.Start with real pion clients in the same process (echo, close at open, never answers, stalls during a download, unreachable relay, relay that accepts and never answers the WebSocket handshake, undecodable offer; capacities 1-3); it marks itself incomplete where in-process WebRTC cannot connect.",
+    "design_ref": "§3 C16", "note": SCHED_NOTE + " Seams: makePeerConnectionFromOffer (real unconnected PeerConnection + scripted OnDataChannel contract) and copyLoop; Start()'s polling loop is copied verbatim. Harness c16-load: capacity 16 with clients leaving while the proxy polls. Tier 2 (real time): the real SnowflakeProxy.Start with real pion clients in the same process (echo, close at open, never answers, stalls during a download, unreachable relay, relay that accepts and never answers the WebSocket handshake, undecodable offer, a broker answering polls with 502 pages or the /answer request with a 503 page; capacities 1-3); it marks itself incomplete where in-process WebRTC cannot connect.",
 }
 CHECKS["C07"] = {
     "script": "c07.py", "category": "exploration", "engine": "enum",
@@ -91,25 +91,25 @@ CHECKS["C07"] = {
 CHECKS["C10"] = {
     "script": "c10.py", "category": "exploration", "engine": "enum",
     "technique": "bounded-exhaustive enumeration of payload sizes x write/read chunkings (deviation-bounded scripts) x whitespace rewritings x markup insertions x token strings on the real AMP armor codec",
-    "text": "Payload lengths on every chunk/element boundary up to 120 kB x contents; encoder write scripts and decoder read scripts with <=2 deviations; every sequence of <=4 (5) Writes over 16 boundary sizes up to 4097 B on a 26 kB payload; every separator rewritten to each ASCII whitespace / doubled / CRLF; 4 markups at every outside-pre offset; every truncation; all token strings <=5 (<=6 thorough) over 16 tokens; endless inputs (incl. a never-closed element cut into small tokens by inner tags) with bounded-buffering measurement and 60 s watchdog re-run 3x.",
+    "text": "Payload lengths on every chunk/element boundary up to 120 kB x contents; encoder write scripts and decoder read scripts with <=2 deviations; every sequence of <=4 (5) Writes over 16 boundary sizes up to 4097 B on a 26 kB payload; every separator rewritten to each ASCII whitespace / doubled / CRLF; 4 markups at every outside-pre offset; every truncation; all token strings <=5 (<=6 thorough) over 16 tokens; each of the 256 byte values and all pairs of 12 special bytes inserted at 5 places of a valid document; endless inputs (incl. a never-closed element cut into small tokens by inner tags) with bounded-buffering measurement and 60 s watchdog re-run 3x.",
     "design_ref": "§3 C10", "note": ENUM_NOTE,
 }
 CHECKS["C14"] = {
     "script": "c14.py", "category": "model_checking",
     "technique": "exhaustive enumeration of request matrices and request pairs through the real handlers under the controlled scheduler (virtual time, DPOR over the broker's goroutines), with a post-request probe; tier 2: the same matrix as raw HTTP exchanges with the broker binary",
-    "text": "Single requests: 5 methods x 12 paths (all endpoints + near misses) x 17 body classes (empty, valid, mutated-valid, legacy, garbage, 99 999/100 000/100 001/200 000 bytes, bad/absent fingerprint, mismatching/absent relay pattern) x 6 Snowflake-NAT-Type values x 3 broker states; all ordered pairs (triples in thorough) from a reduced alphabet; legacy vs versioned request on identical states. Oracle: the handler returns (no panic), status is valid, virtual time <= 10 s, a fresh proxy+client happy path still works afterwards, legacy outcome equals the versioned outcome under the documented status mapping.",
+    "text": "Single requests: 5 methods x 12 paths (all endpoints + near misses) x 17 body classes (empty, valid, mutated-valid, legacy, garbage, 99 999/100 000/100 001/200 000 bytes, bad/absent fingerprint, mismatching/absent relay pattern) x 6 Snowflake-NAT-Type values x 3 broker states; all ordered pairs (triples in thorough) from a reduced alphabet, sequential, at the same instant and one second apart (valid proxy polls share a session id); legacy vs versioned request on identical states. Oracle: the handler returns (no panic), status is valid, virtual time <= 10 s, a fresh proxy+client happy path still works afterwards, legacy outcome equals the versioned outcome under the documented status mapping.",
     "design_ref": "§3 C14", "note": SCHED_NOTE + " Tier 1: handlers are registered on a fresh mux with the registrations main() makes. Tier 2 (real time): the broker binary built from the tree, started with -disable-tls on a loopback port, receives the same matrix as raw HTTP (4 256 requests on their own connections, 121 pairs on kept-alive connections) with a strict response parser; afterwards a proxy poll + client offer + answer and every endpoint must still work; a missing response is believed after 3 repetitions. TLS/ACME listeners are not covered.",
 }
 CHECKS["C15"] = {
     "script": "c15.py", "category": "model_checking",
     "technique": "stateless model checking of the real Peers/connectLoop/WebRTCPeer.Close under a controlled scheduler (DPOR + sleep sets, virtual time) + enumeration of constructor failure kinds with real pion",
-    "text": U + " of connectLoop, a popping data path, peers closing on their own and one or two End callers for max in {1,2(,3)} x scripted Catch outcomes {now, 3 s, error, error after 3 s}; oracle: live peers <= max, Pop never returns a peer whose Close completed before the call, every End returns and never panics, no Catch begins after End returned, no Catch begins once an earlier one has ended after the stop, connectLoop stops, all peers closed. Plus NewWebRTCPeerWithEvents (real pion) over 6 ICE configurations x 20 rendezvous failures and SnowflakeConn.Close once/twice/three times/concurrently x {healthy, session dead, stream closed, packet conn closed, collection ended} on a real KCP+smux session with postconditions (collection stopped, no peer held, session and packet conn closed); a broker that accepts the connection and never answers (every rendezvous variant): Negotiate gives up within 60 s.",
+    "text": U + " of connectLoop, a popping data path, peers closing on their own and one or two End callers for max in {1,2(,3)} x scripted Catch outcomes {now, 3 s, error, error after 3 s}; oracle: live peers <= max, Pop never returns a peer whose Close completed before the call, every End returns and never panics, no Catch begins after End returned, no Catch begins once an earlier one has ended after the stop, connectLoop stops, all peers closed. Plus NewWebRTCPeerWithEvents (real pion) over 6 ICE configurations x 20 rendezvous failures with a listener that renders every event like the client program's and SnowflakeConn.Close once/twice/three times/concurrently x {healthy, session dead, stream closed, packet conn closed, collection ended} on a real KCP+smux session with postconditions (collection stopped, no peer held, session and packet conn closed); a broker that accepts the connection and never answers (every rendezvous variant): Negotiate gives up within 60 s.",
     "design_ref": "§3 C15", "note": SCHED_NOTE + " Peers in the scheduled harness carry no pion objects (as in the repository's own tests); process exit status is not decided.",
 }
 CHECKS["C19"] = {
     "script": "c19.py", "category": "model_checking",
     "technique": "exhaustive interleaving exploration of the rounded counter's atomic operations with a brute-force linearizability check; driven-traffic enumeration through the real IPC calls under virtual time; exhaustive binning check; journal enumeration with an injected clock",
-    "text": "roundedCounter: base in {0,7,8} x 2-3 threads x 1-2 Inc + a reader, every interleaving with <=3 (4) preemptions, no reduction, history linearizable w.r.t. 'n++; read=ceil8(n)' and final value = ceil8(total); metrics log lines and rounded prometheus counters after n in {0,1,7,8,9,16,17} events of 7 kinds, then {0,1,9} events in the next period (the broker's own ticker prints and zeroes on virtual time); binCount(n) for all n <= 2^20; unique-address, per-country and per-NAT figures for all poll sequences <=2 (3) over 3 addresses x 5 types x 2 NATs followed by a second period {nobody, the first proxy again, a new proxy + the first}; journal: chunkings of sets of size 0..64 into <=3 overlapping chunks x all windows on chunk edges +-1 ns (exact), 10^3 and 10^5 addresses (within 2 %), no address text in the file.",
+    "text": "roundedCounter: base in {0,7,8} x 2-3 threads x 1-2 Inc + a reader, every interleaving with <=3 (4) preemptions, no reduction, history linearizable w.r.t. 'n++; read=ceil8(n)' and final value = ceil8(total); metrics log lines and rounded prometheus counters after n in {0,1,7,8,9,16,17} events of 9 kinds (two of them alternating sub-kinds, so that total lines differ from their parts), then {0,1,9} events in the next period (the broker's own ticker prints and zeroes on virtual time); binCount(n) for all n <= 2^20; unique-address, per-country and per-NAT figures for all poll sequences <=2 (3) over 3 addresses x 5 types x 2 NATs followed by a second period {nobody, the first proxy again, a new proxy + the first}; journal: chunkings of sets of size 0..64 into <=3 overlapping chunks x all windows on chunk edges +-1 ns (exact), 10^3 and 10^5 addresses (within 2 %), no address text in the file.",
     "design_ref": "§3 C19", "note": SCHED_NOTE + " Linearizability is checked by brute force over the recorded call/return history instead of porcupine (histories have <= 8 operations). Journal: also with a flush failing once; every chunk must cover the moments at which its addresses were recorded.",
 }
 CHECKS["C20"] = {
@@ -134,7 +134,7 @@ CHECKS["C18"] = {
     "script": "c18.py", "category": "model_checking", "engine": "enum",
     "technique": "explicit-state search to a fixpoint over Set sequences on the real ring map + enumeration of a client_ip grammar against a net/netip reference",
     "text": "Ring map: capacities 0..3 x 4 ClientIDs x 2 addresses, all reachable canonical states (fixpoint), Get of every id compared with the reference 'latest of the last cap Sets' in every state; sanitiser: ~200 client_ip spellings (zones, ports, brackets, leading zeros, mapped/unspecified, garbage, very long) against netip; remoteIPFromSDP against a reference.",
-    "design_ref": "§3 C18", "note": ENUM_NOTE + " Concurrent Set/Get on a ring of capacity 1-2 under the scheduler (DPOR); attribution on the real stack: the sessions section of the C05 tier-2 harness (address at accept time and asked again later, carriers from different or no addresses).",
+    "design_ref": "§3 C18", "note": ENUM_NOTE + " Concurrent Set/Get on a ring of capacity 1-2 under the scheduler (DPOR); attribution on the real stack: the sessions section of the C05 tier-2 harness (address at accept time and asked again later, carriers from different or no addresses, a ClientID the map has forgotten); proxy side: all sequences of <=3 (4) sessions over 6 kinds through the real datachannelHandler, the relay URL it dials carries this session's address or none.",
 }
 
 PENDING = {}
